@@ -29,7 +29,7 @@ func init() {
 			}
 			return 1500
 		},
-		Rule: "case = list of 1..20 trees with labels legal in Newick, Nexus and PhyloXML; conversion chains Newick -> Nexus (with/without translate) -> Newick and Newick -> PhyloXML -> Newick through the library writers/readers and (every 6th case) gotree reformat; the written Nexus document once more with its TRANSLATE command laid out the way other programs write it (commas, ';' after the last pair, one line, tabs, lower-case keywords); multi-tree documents of each format (Newick streams with multi-line trees, blank lines, trailing blanks, no final newline; Nexus; PhyloXML; Nextstrain JSON from an own emitter) read by ReadMultiTrees and ReadTreeReader; non-trivial = a tree with an inner branch, lengths and a support went through all chains and the list has >= 2 trees; distinct by the document text",
+		Rule: "case = list of 1..20 trees with labels legal in Newick, Nexus and PhyloXML; conversion chains Newick -> Nexus (with/without translate) -> Newick and Newick -> PhyloXML -> Newick through the library writers/readers and (every 6th case) gotree reformat (input as it is, gzipped in one or two members, with Windows line ends or without final newline); the written Nexus document once more with its TRANSLATE command laid out the way other programs write it (commas, ';' after the last pair, one line, tabs, lower-case keywords; all trees under one name); multi-tree documents of each format (Newick streams with multi-line trees, blank lines, trailing blanks, no final newline; Nexus; PhyloXML; Nextstrain JSON from an own emitter) read by ReadMultiTrees and ReadTreeReader; non-trivial = a tree with an inner branch, lengths and a support went through all chains and the list has >= 2 trees; distinct by the document text",
 		Assumptions: []string{
 			"labels: unique, no blanks, '=', quotes, XML metacharacters, Newick metacharacters, not a Nexus keyword (quantifier of C13)",
 			"compared: ordered shape, names, lengths (bitwise), supports; p-values and comments are outside C13",
